@@ -3,11 +3,15 @@
   Model level: the two places where a graph is *searched* (property paths, targets) depend on a graph
   only through membership of triples; an arbitrary pick out of a python set is irrelevant when the
   set has at most one element (and relevant otherwise: two sh:severity values are ill-formed input).
-  `…_partial`: invariance of the complete run under permutation and blank-node relabelling is not
-  yet proved for the constraint components (they are list functions over the same searches); the
-  property is decided on the code by the multi-process oracle.
+  The Core components that look into the data graph (sh:class, sh:equals, sh:disjoint, sh:closed) report the same
+  results for any two data graphs with the same triples, and every per-value component reports the same results
+  for any two focus → value-node maps with the same pairs (consequences of the `_exact` theorems of C01).
+  `…_partial`: invariance of the *complete* run under permutation and blank-node relabelling (composition of
+  these facts through `Shape.validate`, the count-based components, relabelling equivariance) is not proved;
+  the property is decided on the code by the multi-process oracle.
 -/
 import PyshaclProofs.InvarianceProofs
+import PyshaclProofs.CoreInvariance
 namespace Pyshacl.C09
 open Pyshacl
 
@@ -25,5 +29,20 @@ theorem picks_irrelevant {α} [DecidableEq α] (l l' : List α) (hsame : ∀ x, 
 
 theorem picks_relevant_when_ill_formed : (dedup [1, 2]).head? ≠ (dedup [2, 1]).head? :=
   Pyshacl.pick_relevant_counterexample
+
+/-- triple order / multiplicity of the data graph does not change what the graph-reading Core components report -/
+theorem core_results_graph_order_invariant (s : Shape) (dg dg' : Graph) (h : SameTriples dg dg') (fv : FV)
+    (ts ignored allowed : List Term) (r : Result) :
+    (r ∈ evalClass s dg fv ts ↔ r ∈ evalClass s dg' fv ts) ∧
+    (r ∈ evalEquals s dg fv ts ↔ r ∈ evalEquals s dg' fv ts) ∧
+    (r ∈ evalDisjoint s dg fv ts ↔ r ∈ evalDisjoint s dg' fv ts) ∧
+    (r ∈ evalClosed s dg fv true ignored allowed ↔ r ∈ evalClosed s dg' fv true ignored allowed) :=
+  ⟨class_graph_invariant s dg dg' h fv ts r, equals_graph_invariant s dg dg' h fv ts r,
+   disjoint_graph_invariant s dg dg' h fv ts r, closed_graph_invariant s dg dg' h fv ignored allowed r⟩
+
+/-- the order in which focus nodes and value nodes come out of python sets does not change what a per-value component reports -/
+theorem per_value_results_set_order_invariant (s : Shape) (k : CKind) (fv fv' : FV) (ok : Term → Term → Bool)
+    (h : SamePairs fv fv') (r : Result) : r ∈ perValue s k fv ok ↔ r ∈ perValue s k fv' ok :=
+  perValue_pairs_invariant s k fv fv' ok h r
 
 end Pyshacl.C09
